@@ -144,6 +144,9 @@ fn lock<T>(m: &Mutex<T>) -> std::sync::MutexGuard<'_, T> {
 /// small integer naming the current thread: 0 = the thread that called `reset` (the caller)
 pub fn tid() -> usize {
     let id = std::thread::current().id();
+    if let Some(l) = sched::logical_id(id) {
+        return l;
+    }
     let mut t = lock(&g().threads);
     let n = t.len();
     *t.entry(id).or_insert(n)
@@ -168,6 +171,10 @@ pub fn set_phase(p: usize) {
 }
 
 pub fn log_call(stage: usize, arg: i64) {
+    if stage == 2 {
+        // the first stage of the chain is evaluated once per source element: a yield point
+        sched::yield_at_element();
+    }
     let gl = g();
     let t = tid();
     let phase = gl.phase.load(Ordering::SeqCst) as u8;
@@ -194,8 +201,201 @@ pub fn install_sink() {
             _ => {}
         }
         let t = tid();
-        lock(&gl.events).push((t, e));
+        lock(&gl.events).push((t, e.clone()));
+        sched::on_event(&e);
     }));
+}
+
+// ------------------------------------------------------------------ deterministic scheduler (K4)
+
+/// Serialised execution: exactly one controlled thread runs at a time; the others are parked
+/// at a yield point (spawner: before every has_more read; worker: at its begin hook and right
+/// before evaluating each source element).  The pick list decides who runs next; a pick of a
+/// thread that is not parked (not spawned yet, finished, retired) is skipped, as in the model.
+pub mod sched {
+    use super::Event;
+    use std::collections::{BTreeSet, HashMap};
+    use std::sync::{Condvar, Mutex};
+    use std::thread::ThreadId;
+
+    #[derive(Default)]
+    pub struct State {
+        pub enabled: bool,
+        pub picks: Vec<usize>,
+        pub pos: usize,
+        pub running: Option<usize>,
+        pub parked: BTreeSet<usize>,
+        pub ids: HashMap<ThreadId, usize>,
+        pub newborn: Option<ThreadId>,
+        pub exhausted: bool,
+        pub used: usize,
+    }
+    pub static ST: Mutex<Option<State>> = Mutex::new(None);
+    pub static CV: Condvar = Condvar::new();
+
+    fn with<R>(f: impl FnOnce(&mut State) -> R) -> Option<R> {
+        let mut g = ST.lock().unwrap_or_else(|e| e.into_inner());
+        g.as_mut().filter(|s| s.enabled).map(f)
+    }
+
+    pub fn logical_id(t: ThreadId) -> Option<usize> {
+        let g = ST.lock().unwrap_or_else(|e| e.into_inner());
+        match g.as_ref() {
+            Some(s) if s.enabled => s.ids.get(&t).copied(),
+            _ => None,
+        }
+    }
+
+    pub fn start(picks: Vec<usize>) {
+        let mut st = State::default();
+        st.enabled = true;
+        st.picks = picks;
+        st.ids.insert(std::thread::current().id(), 0);
+        st.running = Some(0);
+        *ST.lock().unwrap_or_else(|e| e.into_inner()) = Some(st);
+    }
+    /// (schedule exhausted?, picks consumed)
+    pub fn stop() -> (bool, usize) {
+        let mut g = ST.lock().unwrap_or_else(|e| e.into_inner());
+        let r = g.as_ref().map(|s| (s.exhausted, s.pos)).unwrap_or((false, 0));
+        *g = None;
+        r
+    }
+
+    /// hands the token to the next parked thread named by the pick list
+    fn dispatch(s: &mut State) {
+        loop {
+            if s.parked.is_empty() {
+                return; // nobody to run (yet): the next thread to park will call dispatch again
+            }
+            let p = if s.pos < s.picks.len() {
+                let p = s.picks[s.pos];
+                s.pos += 1;
+                p
+            } else {
+                s.exhausted = true;
+                *s.parked.iter().next().unwrap()
+            };
+            if s.parked.remove(&p) {
+                s.running = Some(p);
+                CV.notify_all();
+                return;
+            }
+        }
+    }
+
+    fn park_and_wait(me: usize) {
+        let mut g = ST.lock().unwrap_or_else(|e| e.into_inner());
+        {
+            let s = match g.as_mut() {
+                Some(s) if s.enabled => s,
+                _ => return,
+            };
+            s.parked.insert(me);
+            if s.running == Some(me) || s.running.is_none() {
+                s.running = None;
+                dispatch(s);
+            }
+        }
+        loop {
+            match g.as_ref() {
+                Some(s) if s.enabled => {
+                    if s.running == Some(me) {
+                        return;
+                    }
+                }
+                _ => return,
+            }
+            g = CV.wait(g).unwrap_or_else(|e| e.into_inner());
+        }
+    }
+
+    fn me() -> Option<usize> {
+        logical_id(std::thread::current().id())
+    }
+
+    pub fn yield_at_element() {
+        if let Some(id) = me() {
+            if id >= 1 {
+                park_and_wait(id);
+            }
+        }
+    }
+
+    pub fn on_event(e: &Event) {
+        let enabled = with(|_| ()).is_some();
+        if !enabled {
+            return;
+        }
+        match e {
+            Event::BeforeHasMore => {
+                if let Some(0) = me() {
+                    park_and_wait(0);
+                }
+            }
+            Event::WorkerBegin { .. } => {
+                // check in, wait to be named by the spawner, then wait to be picked
+                let t = std::thread::current().id();
+                let mut g = ST.lock().unwrap_or_else(|e| e.into_inner());
+                if let Some(s) = g.as_mut() {
+                    s.newborn = Some(t);
+                }
+                CV.notify_all();
+                let my;
+                loop {
+                    match g.as_ref() {
+                        Some(s) if s.enabled => {
+                            if let Some(id) = s.ids.get(&t) {
+                                my = *id;
+                                break;
+                            }
+                        }
+                        _ => return,
+                    }
+                    g = CV.wait(g).unwrap_or_else(|e| e.into_inner());
+                }
+                loop {
+                    match g.as_ref() {
+                        Some(s) if s.enabled => {
+                            if s.running == Some(my) {
+                                return;
+                            }
+                        }
+                        _ => return,
+                    }
+                    g = CV.wait(g).unwrap_or_else(|e| e.into_inner());
+                }
+            }
+            Event::Spawned { index } => {
+                // the spawner (holding the token) waits for the new worker to check in and names it
+                let mut g = ST.lock().unwrap_or_else(|e| e.into_inner());
+                loop {
+                    match g.as_mut() {
+                        Some(s) if s.enabled => {
+                            if let Some(t) = s.newborn.take() {
+                                s.ids.insert(t, index + 1);
+                                s.parked.insert(index + 1);
+                                CV.notify_all();
+                                return;
+                            }
+                        }
+                        _ => return,
+                    }
+                    g = CV.wait(g).unwrap_or_else(|e| e.into_inner());
+                }
+            }
+            Event::WorkerEnd | Event::SpawningFinished => {
+                let mut g = ST.lock().unwrap_or_else(|e| e.into_inner());
+                if let Some(s) = g.as_mut() {
+                    if s.enabled {
+                        s.running = None;
+                        dispatch(s);
+                    }
+                }
+            }
+            _ => {}
+        }
+    }
 }
 
 // ------------------------------------------------------------------ closures
@@ -374,6 +574,7 @@ pub struct Case {
     pub term: Term,
     pub nstages: usize,
     pub panic_at: Option<(usize, i64)>,
+    pub macro_sched: Option<Vec<usize>>,
 }
 
 fn p64(s: &str) -> i64 {
@@ -481,6 +682,11 @@ pub fn parse_case(line: &str) -> Case {
         cs2: chunk(&css[1].0, css[1].1),
         term,
         panic_at,
+        macro_sched: if f.get("macro").map(|x| *x == "1").unwrap_or(false) {
+            Some(if f["sched"] == "-" { vec![] } else { f["sched"].split(',').map(|x| x.parse().unwrap()).collect() })
+        } else {
+            None
+        },
     }
 }
 
